@@ -36,9 +36,14 @@ def _orig(v):
     return None
 
 
+_BM_CACHE = {}
+
+
 def builder_methods(cls):
     """{method name: defining qualname} of builder-decorated methods visible on cls."""
-    res = {}
+    if cls in _BM_CACHE:
+        return _BM_CACHE[cls]
+    res = _BM_CACHE[cls] = {}
     for k in dir(cls):
         try:
             v = inspect.getattr_static(cls, k)
@@ -79,10 +84,21 @@ def sub_():
     return A(Query.from_(v).select(v.id))
 
 
+def used_sub_():
+    v = Table("v")
+    s = A(Query.from_(v).select(v.id))
+    A(Query.from_(s).select(s.id))  # the other user of s: a live object whose rendering must not change
+    return s
+
+
 QB_OPS = {
     "from_:u": lambda r: r.from_(A(Table("u"))),
     "from_:str": lambda r: r.from_("w"),
     "from_:sub": lambda r: r.from_(sub_()),
+    # a subquery that another (live) query already uses and auto-aliased: it is no longer "un-aliased", so nothing
+    # about it - and nothing about the other query - may change
+    "from_:sub_used": lambda r: r.from_(used_sub_()),
+    "join:sub_used": lambda r: r.join(used_sub_()).on_field("id"),
     "select:f": lambda r: r.select(A(t_().c), t_().d),
     "select:str": lambda r: r.select("e"),
     "select:star": lambda r: r.select("*"),
@@ -113,7 +129,7 @@ QB_OPS = {
     "slice": lambda r: r[3:9],
     "distinct": lambda r: r.distinct(),
     "for_update": lambda r: r.for_update(nowait=True),
-    "for_update:of": lambda r: r.for_update(of=("x1",)),
+    "for_update:of": lambda r: r.for_update(of=("x1", "zeta", "alpha", "m2")),
     "force_index": lambda r: r.force_index("fi", A(Index("fj"))),
     "use_index": lambda r: r.use_index("ui"),
     "with_": lambda r: r.with_(sub_(), "c2"),
